@@ -93,18 +93,22 @@ public:
         ar & data; ar & is_negligible;
     }
 
-    /** Check that all terms in the container are properly ordered and are not negligible */
+    /** Check that all terms in the container are properly ordered.
+     *
+     * Negligibility is deliberately not part of this check: add_term() tests a reduced term against
+     * Tolerance / (number of terms at that moment + 1), and the list can shrink afterwards (terms that
+     * cancel are removed), so a stored term may be smaller than Tolerance / (final size + 1) without
+     * any invariant of add_term() being broken.
+     */
     bool check_terms() {
-        if(size() == 0) return true;
+        if(size() <= 1) return true;
         typename std::set<TermType>::const_iterator prev_it = data.begin();
-        if(is_negligible(*prev_it, data.size() + 1)) return false;
-        if(size() == 1) return true;
 
         Compare const& compare = data.key_comp();
 
         typename std::set<TermType>::const_iterator it = prev_it;
         for(++it; it != data.end(); ++it, ++prev_it) {
-            if(is_negligible(*it, data.size() + 1) || !compare(*prev_it, *it))
+            if(!compare(*prev_it, *it))
                 return false;
         }
         return true;
